@@ -1,7 +1,7 @@
 (* Properties/C04.v — C04: trips and vehicles associated in a feed point at each other.
    In the model a pointer is the key of the object it reaches (DESIGN 4.2); that what is reached has the same content as the
    top-level entry is checked on the real result by the rt_links engine (coherence flags), not proved. *)
-From GV Require Import Base.Prelude Model.RtTypes Model.RtWire Model.Realtime Proofs.RealtimeProofs.
+From GV Require Import Base.Prelude Model.RtTypes Model.RtWire Model.Realtime Proofs.RealtimeProofs Proofs.LinkProofs.
 
 (* an entity associating trip t with a vehicle that has an id records both directions at once *)
 Theorem C04_association_recorded : forall a t v id, ve_id v = Some id ->
@@ -35,3 +35,14 @@ Proof.
   - unfold f. destruct (glookup tk_eqb k (a_t2v a)); [split; reflexivity|]. destruct (existsb _ _); split; reflexivity.
 Qed.
 Print Assumptions C04_resolution.
+
+(* ---- the whole result, for EVERY message and extension configuration (conflicting and repeated mentions included): a trip's
+   vehicle reference leads to an element of the result's Vehicles with that id (or to an id-less vehicle whose own trip
+   reference names this trip), and a vehicle's trip reference leads to an element of the result's Trips with that key.
+   (Reciprocity for conflict-free feeds is the association lemmas above plus the engine's oracle on the real pointers.) ---- *)
+Theorem C04_links_closed : forall cm tz cfg m, let r := parse_message cm tz cfg m in
+  (forall t id, In t (rt_trips r) -> tr_vehicle t = Some (Some id) -> exists v, In v (rt_vehicles r) /\ ve_id v = Some id) /\
+  (forall t, In t (rt_trips r) -> tr_vehicle t = Some None -> exists v, In v (rt_vehicles r) /\ ve_id v = None /\ ve_trip v = Some (tr_key t)) /\
+  (forall v k, In v (rt_vehicles r) -> ve_trip v = Some k -> exists t, In t (rt_trips r) /\ tr_key t = k).
+Proof. exact links_closed. Qed.
+Print Assumptions C04_links_closed.
